@@ -201,6 +201,9 @@ type Sim struct {
 	mainDone   bool
 	Outcome    string
 	panicStack string
+	// PostCheck, if set by the scenario, is evaluated after the run (outside
+	// the scheduler) and may report a violation found in the recorded history.
+	PostCheck func() (class, msg string)
 }
 
 // S is the installed simulation, nil in pass-through mode.
@@ -861,6 +864,17 @@ func LiveTasks() []TaskInfo {
 		out = append(out, TaskInfo{ID: t.ID, Name: t.Name, Site: t.Site, State: st, Daemon: t.daemon})
 	}
 	return out
+}
+
+// FinishPostCheck runs the scenario's PostCheck and records its verdict.
+func (s *Sim) FinishPostCheck() {
+	if s.PostCheck == nil || s.violation != nil || s.Outcome != "done" {
+		return
+	}
+	if class, msg := s.PostCheck(); class != "" {
+		s.violation = &Violation{Class: class, Msg: msg, Seq: s.seq, At: time.Since(s.start)}
+		s.logHash.Write([]byte("POSTCHECK " + class))
+	}
 }
 
 // GetViolation returns the recorded violation, if any.
